@@ -274,6 +274,7 @@ struct Cl {
     bool closed = false;      // the harness disconnected this client (close / reset / half-close)
     bool eof = false;         // the client observed EOF or a reset from the relay
     bool need_ack = false;    // received data whose ACK may still be delayed
+    bool paused = false;      // back-pressure: the harness does not read from this client for now
     int closed_batch = -1;
     std::string rx;
     std::size_t pos = 0;      // parse cursor in rx (command phase)
@@ -331,6 +332,7 @@ struct Sim {
     std::string rereg_sig;
     int state_changes = 0;         // OK / BEGIN lines seen (C26 non-trivial rule)
     int bridges = 0;
+    bool small_rcvbuf = false;
     std::map<std::string, std::set<int>> id_users;   // id -> clients that ever named it in a REGISTER line
     bool any_connect_template_by_wild = false;
 
@@ -371,6 +373,10 @@ struct Sim {
         a.sin_family = AF_INET;
         a.sin_addr.s_addr = htonl(INADDR_LOOPBACK);
         a.sin_port = htons(relay.port);
+        if (small_rcvbuf) {   // a small receive window, so that a reader that pauses really exerts back-pressure on the relay
+            int sz = 4096;
+            ::setsockopt(fd, SOL_SOCKET, SO_RCVBUF, &sz, sizeof sz);
+        }
         int rc = -1;
         for (int attempt = 0; attempt < 10 && rc != 0; ++attempt) {
             rc = ::connect(fd, reinterpret_cast<sockaddr*>(&a), sizeof a);
@@ -393,7 +399,7 @@ struct Sim {
     }
 
     bool drain(Cl& k) {
-        if (!k.fd_open || k.eof) return false;
+        if (!k.fd_open || k.eof || k.paused) return false;
         bool ch = false;
         char buf[65536];
         for (;;) {
@@ -696,15 +702,15 @@ struct Sim {
             if (x.wild) continue;
             std::string pair = "bridge connector " + std::to_string(x.idx) + " <-> target " + std::to_string(t.idx);
             if (x.live() && t.live()) {
-                if (t.rx.size() - t.bridge_start != x.after.size())
+                if (!t.paused && t.rx.size() - t.bridge_start != x.after.size())
                     return {{"bridge-bytes-lost", pair + ": target received " + std::to_string(t.rx.size() - t.bridge_start) + " of the " + std::to_string(x.after.size()) + " bytes the connector wrote, both still connected"}};
-                if (x.rx.size() - x.bridge_start != t.data_out.size())
+                if (!x.paused && x.rx.size() - x.bridge_start != t.data_out.size())
                     return {{"bridge-bytes-lost", pair + ": connector received " + std::to_string(x.rx.size() - x.bridge_start) + " of the " + std::to_string(t.data_out.size()) + " bytes the target wrote, both still connected"}};
             }
             if (!x.closed && !t.closed && (x.eof || t.eof))
                 return {{"bridge-dropped", pair + ": the relay disconnected client " + std::to_string(x.eof ? x.idx : t.idx) + " although neither side had disconnected"}};
-            if (x.closed && !t.closed && !t.eof) return {{"partner-not-disconnected", pair + ": the connector disconnected but the target is still connected"}};
-            if (t.closed && !x.closed && !x.eof) return {{"partner-not-disconnected", pair + ": the target disconnected but the connector is still connected"}};
+            if (x.closed && !t.closed && !t.eof && !t.paused) return {{"partner-not-disconnected", pair + ": the connector disconnected but the target is still connected"}};
+            if (t.closed && !x.closed && !x.eof && !x.paused) return {{"partner-not-disconnected", pair + ": the target disconnected but the connector is still connected"}};
         }
         for (auto& x : cl) {
             if (x.clean_target < 0 || x.clean_stage >= 2 || x.wild) continue;
@@ -1147,6 +1153,49 @@ struct Driver : Sim {
         raw_send(k, s);
     }
 
+    // ---- back-pressure: a bridged client stops reading for a while; its partner keeps writing (large probes); later it
+    // resumes.  Everything written while both stay connected must still arrive, in order (I1 / I3).
+    void resume_all() {
+        for (auto& k : cl)
+            if (k.paused) { k.paused = false; c.note("R%d", k.idx); }
+    }
+    bool backpressure(const verif::Rec& r) {
+        auto both = [&](Cl& k) { return k.live() && !k.wild && k.partner >= 0 && (k.phase == Cl::BridgeT || k.phase == Cl::BridgeX) && cl[k.partner].live() && !cl[k.partner].wild; };
+        auto br = sel(both);
+        if (br.empty()) return false;
+        auto paused = sel([&](Cl& k) { return both(k) && k.paused; });
+        switch (r.a(1) % 4) {
+            case 0: {
+                auto cand = sel([&](Cl& k) { return both(k) && !k.paused; });
+                if (cand.empty()) return false;
+                Cl* k = pick(cand, r.a(0));
+                k->paused = true;
+                c.note("P%d", k->idx);
+                c.label("reader_paused");
+                return true;
+            }
+            case 1: case 2: {
+                if (paused.empty()) return false;
+                Cl* k = pick(paused, r.a(0));
+                // (loopback: the relay's socket send buffer grows to tcp_wmem[2] = 4 MiB before send() comes back short, so only
+                //  probes beyond that really make the relay queue bytes itself)
+                static const std::size_t kBig[] = {70000, 600000, 1u << 20, 2u << 20, 3u << 20, 5u << 20, 6u << 20, 65537};
+                std::size_t n = kBig[r.a(2) % 8];
+                c.label("big_write_to_paused_reader");
+                do_data(cl[k->partner], n, false);
+                return true;
+            }
+            default: {
+                if (paused.empty()) return false;
+                Cl* k = pick(paused, r.a(0));
+                k->paused = false;
+                c.note("R%d", k->idx);
+                c.label("reader_resumed");
+                return true;
+            }
+        }
+    }
+
     void act(unsigned kind, const verif::Rec& r, bool& force) {
         auto live_any = sel([&](Cl& k) { return k.fd_open && !k.closed; });
         auto cmd = sel([&](Cl& k) { return cmd_idle(k); });
@@ -1272,7 +1321,7 @@ struct Driver : Sim {
                 act(kind, r, force);
             }
         } else {
-            act(op & 0x0F, r, force);
+            if (!((op & 0x30) == 0x30 && backpressure(r))) act(op & 0x0F, r, force);
         }
         ++unstepped;
         if (!nostep || force) settle();
@@ -1295,6 +1344,7 @@ struct Driver : Sim {
             b[0] = static_cast<std::uint8_t>(0x10 | i);
             ids[i] = to_hex(b, 32);
         }
+        small_rcvbuf = !opt.wild && (t.h(1) & 1);
         if (!relay.start(!opt.strict)) c.fail(std::string(opt.pid) + ":harness-error", "relay server did not start");
         cl.reserve(kMaxClients + 1);
         for (int i = 0; i < n_clients; ++i) add_client();
